@@ -23,6 +23,11 @@ func init() {
 			sc("shrunk-hot", "size=1000,keys=2,costs=1,alpha=get,prefix=200,shrink=100,heat=15,depth=1,targets=1000/500", 1, 60),
 			sc("grown-cold-protected", "size=1000,keys=2,costs=1,alpha=get,prefix=40,hot=10,grow=100,depth=1,targets=1000/500", 1, 60),
 			sc("nonquiescent-save", "size=4,keys=3,costs=1/2,alpha=set/get/setmap,depth=4,targets=4/3", 2, 60),
+			sc("save-after-failed-save", "size=4,keys=3,costs=1/2,ttls=0/2,depth=2,targets=4,wfaults=1", 2, 60),
+			// an admission window of several entries (MaxSize >= 200): zero-valued keys and values in every position of it
+			sc("window-300", "size=300,keys=3,costs=1/2,ttls=0/2,depth=3,targets=300/100", 1, 60),
+			sc("window-300-string", "vt=string,size=300,keys=3,costs=1,ttls=0/2,depth=3,targets=300", 1, 60),
+			sc("window-300-struct", "vt=struct,size=300,keys=3,costs=1,depth=3,targets=300", 1, 60),
 			func() Scenario {
 				// streams of several blocks in the quick tier: the 4 MiB block size (it only sizes buffers) is compiled as 256 bytes
 				x := sc("multi-block-small", "size=100,keys=4,costs=1,alpha=get/set,prefix=60,depth=2,targets=100/50/10", 2, 60)
@@ -49,6 +54,10 @@ func init() {
 			sc("shrunk-hot-300", "size=1000,keys=2,costs=1,alpha=get,prefix=300,shrink=30,heat=15,depth=1,targets=1000", 1, 600),
 			sc("grown-cold-protected", "size=1000,keys=3,costs=1,alpha=get/set/del,prefix=40,hot=10,grow=100,depth=2,targets=1000/500/100", 2, 600),
 			sc("nonquiescent-save", "size=4,keys=4,costs=1/2/3,alpha=set/get/del/setmap,depth=6,targets=4/3/2", 8, 600),
+			sc("save-after-failed-save", "size=4,keys=3,costs=1/2,ttls=0/2,depth=4,targets=4,wfaults=1", 8, 600),
+			sc("window-300", "size=300,keys=4,costs=1/2,ttls=0/2,depth=5,targets=300/100/3", 4, 600),
+			sc("window-300-string", "vt=string,size=300,keys=4,costs=1,ttls=0/2,depth=4,targets=300", 2, 600),
+			sc("window-300-struct", "vt=struct,size=300,keys=4,costs=1,depth=4,targets=300", 2, 600),
 			sc("types-string", "vt=string,size=4,keys=3,costs=1/2,ttls=0/2,depth=4", 2, 600),
 			sc("types-struct", "vt=struct,size=4,keys=3,costs=1/2,ttls=0/2,depth=4", 2, 600),
 			sc("types-bytes", "vt=bytes,size=4,keys=3,costs=1/2,ttls=0/2,depth=4", 2, 600),
